@@ -179,7 +179,10 @@ class ManifestMachine(FormatMachine):
         self.count("C12", ["ok", self.FORMAT, self.add_key(op, payload)])
         d = first_diff(arg, got)
         if d:
-            raise Violation("C12", "C12.add_files_entry_where_arguments_say", "add-effect-differs/%s/%s" % (self.FORMAT, diff_key(d)),
+            # C12 and C03 both quantify over histories of add calls and compare with what the calls specified; the run's
+            # focus decides which check reports it, so that neither loses the detection
+            P = "C03" if self.cfg.get("focus") == "C03" else "C12"
+            raise Violation(P, "%s.add_files_entry_where_arguments_say" % P, "add-effect-differs/%s/%s" % (self.FORMAT, diff_key(d)),
                             {"diff": d})
         s.model["payload"] = arg
         return "ok"
@@ -368,6 +371,19 @@ class ModulesMachine(ManifestMachine):
         rpms = op["rpms"]
         if op.get("rpms_as") == "tuple" and isinstance(rpms, list):
             rpms = tuple(rpms)
+        elif isinstance(rpms, list):
+            # a caller re-using ONE list object for every add with the same content (aliasing): the manifest must
+            # hold its own copies.  The op's own list is never handed out (it is the recorded history).
+            if not hasattr(self, "_shared"):
+                self._shared = {}
+            key = cjson(rpms)
+            if key not in self._shared:
+                self._shared[key] = list(rpms)
+            elif self._shared[key] != rpms:
+                # the library modified the caller's list in place: visible to the caller, checked below via the model
+                CTX.probe("c12.caller_list_mutated_by_add")
+                self._shared[key] = list(rpms)
+            rpms = self._shared[key]
         obj.add(op["variant"], op["arch"], op["uid"], op["koji_tag"], op["modulemd_path"], op["category"], rpms)
 
     def add_key(self, op, payload):
